@@ -5,7 +5,7 @@
    stands when the record is produced — identities, and attribute by attribute ABSATR or count / code / units / values.
    What remains per run: that the stored state at write time is the last accepted assignment plus the documented
    defaults (the harness computes the expectation from the operation list, not from dliswriter objects): see DESIGN. *)
-From DV Require Import Model.ApiDispatch Proofs.BuilderP Proofs.EflrP Model.EflrReader Proofs.StructP Proofs.FileP Proofs.KeepP.
+From DV Require Import Model.ApiDispatch Proofs.BuilderP Proofs.EflrP Model.EflrReader Proofs.StructP Proofs.FileP Proofs.RegP Proofs.KeepP Proofs.ContentP.
 
 Theorem C05_assign_value : forall hc st it idx r it',
   set_value hc st it idx r = OK it' -> (idx < length (i_attrs it))%nat ->
@@ -102,6 +102,66 @@ Example C05_write_default_ex :
   /\ exists e, snd (write false st w) = Err e.
 Proof. vm_compute. repeat split; try discriminate. eexists. reflexivity. Qed.
 
+(* END TO END for explicitly formatted records (Proofs/ContentP.v). For every state reachable by API calls and writes in any
+   order in which no set is registered for two logical files (this excludes exactly the sharing of known finding D12, and
+   always holds with one logical file: C05_file_content_single), whenever write returns a file, that file is write_file of
+   one group of records per logical file, in creation order; a group is: the FILE-HEADER record, then one record per set
+   registered for that logical file, in registry order, which is empty for a set without objects and otherwise decodes to
+   that set AS IT STANDS IN THE STATE THE WRITE LEAVES (set_matches (eset_of st' sid): type, name, template, and per object the
+   identity and per attribute absent / count / code / units / values, references as identities), then implicitly formatted
+   records only; and (skeeps) the state the write leaves has the same sets and registries as the state it found, with
+   attribute values / units changed only at the write-time default sites where nothing had been given. Reading the file back
+   gives these records again (C02_roundtrip). *)
+Print lf_group.
+Print set_rec.
+Print skeeps.
+Print keeps.
+Theorem C05_file_content : forall l ps hc w st' bs,
+  let st := snd (run_actions ps b_init l) in
+  write hc st w = (st', OK bs) ->
+  NoDup (concat (map lf_sids (b_lfs st))) ->
+  exists groups,
+    write_file {| sul_seq := w_seq w; sul_vrl := w_vrl w; sul_id := w_ident w |} (concat groups) = OK bs
+    /\ Forall2 (lf_group st') (map lf_sids (b_lfs st)) groups
+    /\ skeeps st st'.
+Proof.
+  intros l ps hc w st' bs st H Hnd.
+  assert (Hi : Inv st) by (apply reachable_inv_actions; split; [apply WriteP.inv_shape_init | apply inv_struct_init]).
+  assert (Hr : Inv_reg st) by (apply reachable_inv_reg_actions; [split; [apply WriteP.inv_shape_init | apply inv_struct_init] | apply inv_reg_init]).
+  assert (Hd : Inv_disj st) by (apply reachable_inv_disj_actions; [split; [apply WriteP.inv_shape_init | apply inv_struct_init] | apply inv_reg_init | apply inv_disj_init]).
+  exact (write_content hc st w st' bs H Hi Hr Hd Hnd).
+Qed.
+
+Theorem C05_file_content_single : forall l ps hc w st' bs f,
+  let st := snd (run_actions ps b_init l) in
+  write hc st w = (st', OK bs) -> b_lfs st = [f] ->
+  exists g, write_file {| sul_seq := w_seq w; sul_vrl := w_vrl w; sul_id := w_ident w |} g = OK bs
+            /\ lf_group st' (lf_sids f) g /\ skeeps st st'.
+Proof.
+  intros l ps hc w st' bs f st H Hf.
+  assert (Hi : Inv st) by (apply reachable_inv_actions; split; [apply WriteP.inv_shape_init | apply inv_struct_init]).
+  assert (Hr : Inv_reg st) by (apply reachable_inv_reg_actions; [split; [apply WriteP.inv_shape_init | apply inv_struct_init] | apply inv_reg_init]).
+  assert (Hd : Inv_disj st) by (apply reachable_inv_disj_actions; [split; [apply WriteP.inv_shape_init | apply inv_struct_init] | apply inv_reg_init | apply inv_disj_init]).
+  exact (write_content_single hc st w st' bs f H Hi Hr Hd Hf).
+Qed.
+
+(* non-vacuity: origin, channel with two rows of uint8 data, frame; the write returns a file (the program and the write
+   options are the request trees the harness sends for that program) *)
+Example C05_file_content_ex :
+  let t_ops := [TL [TI 0; TL [TI 4; TB [72]; TL []]; TL [TI 1; TI 1]];
+                TL [TI 2; TI 0; TL [TI 4; TB [79]; TL []]; TL []; TL [TI 0]; TL [TL [TI 2; TL [TI 0; TL [TI 1; TI 7]]]; TL [TI 0; TL [TI 0; TL [TI 4; TB [72]; TL []]]]; TL [TI 8; TL [TI 0; TL [TI 4; TB [50; 48; 50; 48; 47; 48; 49; 47; 48; 49; 32; 48; 48; 58; 48; 48; 58; 48; 48]; TL [TI 3; TL [TI 2020; TI 1; TI 1; TI 0; TI 0; TI 0; TI 0]]]]]]];
+                TL [TI 3; TI 0; TL [TI 4; TB [67]; TL []]; TL []; TL [TI 0]; TL []; TI 0; TL [TL [TI 15; TL []; TI 2]]; TL []; TL []];
+                TL [TI 4; TI 0; TL [TI 4; TB [70]; TL []]; TL []; TL [TI 0]; TL [TI 7; TL [TL [TI 6; TI 1]]]; TL []]] in
+  let t_w := TL [TL []; TI 0; TL []; TL [TL [TI 2; TL [TL [TL [TI 1; TB [37]]]; TL [TL [TI 1; TB [244]]]]; TL []]]; TI 1; TI 8192; TB [85]] in
+  match map_opt as_op t_ops, as_wopts t_w with
+  | Some ops, Some w =>
+      let st := snd (run_actions p_init b_init (map AOp ops)) in
+      (Nat.eqb (length (b_lfs st)) 1 && Nat.eqb (length (b_items st)) 3
+       && match snd (write false st w) with OK bs => Nat.ltb 80 (length bs) | Err _ => false end) = true
+  | _, _ => False
+  end.
+Proof. vm_compute. reflexivity. Qed.
+
 Print Assumptions C05_assign_value.
 Print Assumptions C05_assign_units.
 Print Assumptions C05_value_readback.
@@ -109,3 +169,5 @@ Print Assumptions C05_record_is_the_set.
 Print Assumptions C05_reachable_states_satisfy_the_invariant.
 Print Assumptions C05_api_frame.
 Print Assumptions C05_write_changes_only_defaults.
+Print Assumptions C05_file_content.
+Print Assumptions C05_file_content_single.
